@@ -155,6 +155,11 @@ type Unit struct {
 	assumedAt    []string
 	nLoops       int
 	modStack     []*FuncUnit
+	loopStmtStack []ast.Stmt
+	loopKeys     map[ast.Stmt]map[string]bool
+	pass         int
+	curCallSite  string
+	panicSites   map[string]bool
 	compGoT      map[string]types.Type
 	epochAlloc   map[int]Term
 }
@@ -179,7 +184,7 @@ func NewUnit(p *Program, fu *FuncUnit) *Unit {
 		closureBind: map[types.Object]*ast.FuncLit{}, usedActions: map[*AnchorAction]bool{}, usedLoops: map[string]bool{},
 		callees: map[string]bool{}, trusted: map[string]bool{}, sentinels: map[string]bool{}, litOf: map[string]*ast.FuncLit{},
 		loopEnd: map[ast.Node][]*AnchorAction{}, lastIdx: map[ast.Stmt]Term{}, isParam: map[types.Object]bool{}, clausePos: map[*Clause]token.Pos{},
-		tracedKeys: map[string]bool{}, pureSorts: map[string]*Sort{}, compGoT: map[string]types.Type{}, epochAlloc: map[int]Term{}}
+		tracedKeys: map[string]bool{}, pureSorts: map[string]*Sort{}, compGoT: map[string]types.Type{}, epochAlloc: map[int]Term{}, loopKeys: map[ast.Stmt]map[string]bool{}, panicSites: map[string]bool{}}
 	x.mode = "seq"
 	if fu.Contract != nil && fu.Contract.Mode != "" {
 		x.mode = fu.Contract.Mode
@@ -418,7 +423,7 @@ func (x *Unit) boundComp(comp string, t Term, alloc Term) {
 }
 
 func isZeroInitComp(comp string) bool {
-	return strings.HasPrefix(comp, "TL:") || comp == "clk" || comp == "$panicking" || strings.HasPrefix(comp, "D:") || comp == "$nlocks"
+	return strings.HasPrefix(comp, "TL:") || comp == "clk" || comp == "$panicking" || strings.HasPrefix(comp, "D:") || comp == "$nlocks" || strings.HasPrefix(comp, "L:")
 }
 
 func (x *Unit) zeroComp(comp string, s *Sort) Term {
@@ -427,6 +432,10 @@ func (x *Unit) zeroComp(comp string, s *Sort) Term {
 		return T("0", SInt)
 	case KBool:
 		return False
+	case KArray:
+		if s.Elem == SInt {
+			return T("((as const "+s.Name+") 0)", s)
+		}
 	}
 	return x.U.Const(q(comp+"@e0"), s)
 }
